@@ -454,6 +454,9 @@ func checkSet(r *rand.Rand, c *credSet, lists [][]auth.VerifyMethod) {
 	}
 	c.count("request-method:" + string(c.method))
 	run.Distinct(c.user + "\x00" + c.pass + "\x00" + c.realm + "\x00" + c.nonce + "\x00" + c.url + "\x00" + string(c.method))
+	if run.WantSample() {
+		run.Sample(map[string]any{"user": c.user, "password": c.pass, "realm": c.realm, "nonce": c.nonce, "method": string(c.method), "url": c.url})
+	}
 
 	type signedCase struct {
 		req     *base.Request
